@@ -20,7 +20,7 @@ from checks import c01
 # ------------------------------------------------------------------ (a) growth
 RECURSION = {
     "self": "var depth = 0; var f = function(){ depth++; return f() + 1; }; f();",
-    "self-declared": "var depth = 0; function f(){ depth++; return 1 + f(); } f();",
+    "self-declared": "var depth = 0; function f(){ depth++; return 1 + f(); }; f();",
     "mutual": "var depth = 0; var a = function(){ depth++; return b(); }; var b = function(){ depth++; return a() + 1; }; a();",
     "three-cycle": "var depth = 0; var p = function(){ depth++; return q(); }; var q = function(){ return r(); }; var r = function(){ return p(); }; p();",
     "pending-operands": "var depth = 0; var f = function(){ depth++; return [1, 2, 3, {a: 4}, f()]; }; f();",
@@ -53,6 +53,14 @@ def recursion_cases(chk):
             shapes["cb:" + n] = "var depth = 0; var f = function(){ depth++; return [1, 2].%s(function(a, b){ return f(); }, 0); }; f();" % n
         else:
             shapes["cb:" + n] = "var depth = 0; var f = function(){ depth++; [1].%s(function(x){ return f(); }); }; f();" % n
+    # the same shapes inside script-level try/catch: a limit error must not be catchable by the script
+    for name, src in sorted(list(shapes.items())):
+        kick = src[src.rindex(";", 0, len(src) - 1) + 1 :].strip() if src.count(";") > 1 else None
+        if not kick:
+            continue
+        head = src[: len(src) - len(kick)].rstrip()
+        shapes["try-around:" + name] = "%s try { %s } catch (lim) { depth = -1; }" % (head, kick)
+        shapes["retry-loop:" + name] = "%s for (var att = 0; att < 3; att++) { try { %s } catch (lim) { depth = depth + 0; } }" % (head, kick)
     ms = [2000, 10000, 100000, 1000000]
     if chk.tier == "thorough":
         ms.append(10000000)
@@ -61,6 +69,8 @@ def recursion_cases(chk):
         for m in ms:
             for t in (None, 30.0):
                 if chk.tier == "quick" and t is not None and m != 100000:
+                    continue
+                if chk.tier == "quick" and ":" in name and not name.startswith("cb:") and m not in (10000, 1000000):
                     continue
                 cases.append((name, src, m, t))
     return cases
@@ -197,7 +207,7 @@ class BodyGen:
         r = self.r
         if depth <= 0:
             return self.log()
-        kind = r.choice(["log", "if", "for", "while", "do", "forin", "forof", "switch", "label", "trycatch", "tryfinally", "trycf", "call", "expr"])
+        kind = r.choice(["log", "if", "for", "while", "do", "forin", "forof", "switch", "label", "trycatch", "tryfinally", "trycf", "call", "expr", "native-throw", "native-throw"])
         d = depth - 1
         if kind == "log":
             return self.log()
@@ -248,6 +258,31 @@ class BodyGen:
             self.helpers.append("var %s = function(sel){ %s return 1; };" % (name, hb))
             self.helpers.extend(sub.helpers)
             return "log(%s(sel) + %s(sel + 1));" % (name, name)
+        if kind == "native-throw":
+            # an exception that leaves script code run by a built-in and is caught outside it
+            e = self.fresh("e")
+            via = r.choice(["forEach", "map", "sort", "reduce", "getter", "valueOf", "call", "apply", "toString", "nested"])
+            self.tags.add("throw through built-in: " + via)
+            thrower = "function(x){ if (sel !== 9) throw 'N' + sel; return 0; }"
+            if via in ("forEach", "map"):
+                inner = "[1, 2].%s(%s);" % (via, thrower)
+            elif via == "sort":
+                inner = "[2, 1, 3].sort(%s);" % thrower
+            elif via == "reduce":
+                inner = "[1, 2].reduce(%s, 0);" % thrower
+            elif via == "getter":
+                inner = "var og%d = { get p(){ throw 'G' + sel; } }; og%d.p;" % (self.n, self.n)
+            elif via == "valueOf":
+                inner = "var ov%d = { valueOf: function(){ throw 'V' + sel; } }; ov%d + 1;" % (self.n, self.n)
+            elif via == "toString":
+                inner = "var ot%d = { toString: function(){ throw 'S' + sel; } }; '' + ot%d;" % (self.n, self.n)
+            elif via == "call":
+                inner = "(%s).call(null, 1);" % thrower
+            elif via == "apply":
+                inner = "(%s).apply(null, [1]);" % thrower
+            else:
+                inner = "[1].forEach(function(){ [2].map(%s); });" % thrower
+            return "try { %s %s } catch (%s) { log(%s); }" % (self.log(), inner, e, e)
         # expression with pending operands around a throwing / catching call
         name = self.fresh("t")
         self.helpers.append("var %s = function(k){ if (k === 1) throw 'T'; return k; };" % name)
@@ -284,7 +319,7 @@ def run_bounded(case):
 
     def run(src, mem):
         lg = []
-        ctx = m.Context(memory_limit=mem, time_limit=60)
+        ctx = m.Context(memory_limit=mem, time_limit=None)  # no wall clock in this oracle
         ctx.set("log", lambda v=None: lg.append(engine.tv(v)))
         try:
             with pool.cpu_alarm(90):
@@ -304,6 +339,8 @@ def run_bounded(case):
     if base[0] != "ok":
         return {"stage": "single", "res": base[:2], "tags": tags, "single": single}
     log1 = base[2]
+    if len(log1) > 120:
+        return {"stage": "too-big", "res": ("ok", None), "tags": tags, "single": single}
     m0 = 2000
     while m0 <= 10 ** 7:
         r = run(single, m0)
@@ -313,6 +350,9 @@ def run_bounded(case):
             m0 *= 2
             continue
         return {"stage": "single-under-M", "res": r[:2], "tags": tags, "single": single, "M": m0}
+    if n * 100 < 8 * m0:  # one leaked operand slot (100 bytes) per iteration must exceed the limit
+        n = 8 * m0 // 100 + 20
+        single, loop = programs(body, helpers, in_function, n)
     big = run(loop, 4 * m0)
     return {"stage": "loop", "res": big[:2], "tags": tags, "M0": m0, "log1": len(log1), "logN_ok": big[2] == log1 * n,
             "logN_len": len(big[2]), "single": single, "loop": loop if big[0] != "exc" or big[1]["cls"] != "JSError" or big[2] != log1 * n else None}
@@ -332,6 +372,9 @@ def judge_bounded(chk, case, res):
     casej["tags"] = tags
     casej["single"] = res.get("single")
     st, info = res["res"]
+    if res["stage"] == "too-big":
+        chk.excluded["body logs more than 120 entries per run (cost bound)"] += 1
+        return
     if res["stage"] != "loop":
         # the body itself fails even once: not a memory question (C05 judges meaning);
         # a host exception is still reported
@@ -343,7 +386,9 @@ def judge_bounded(chk, case, res):
     casej["loop"] = res.get("loop")
     casej["M"] = 4 * res["M0"]
     if st == "hang":
-        chk.violation("bounded|hang", casej, "sentinel", "hang", sub="bounded")
+        # the CPU budget of the harness ran out: inconclusive, never a verdict about memory
+        chk.truncated = True
+        chk.classify("bounded: inconclusive (CPU budget)")
         return
     if st == "ok":
         chk.violation("bounded|sentinel-swallowed", casej, "uncaught JSError('sentinel')", "eval returned normally", sub="bounded")
